@@ -20,6 +20,7 @@ import (
 	"context"
 	"fmt"
 	"sync"
+	"testing"
 	"time"
 
 	"github.com/tikv/pd/server/election"
@@ -40,6 +41,9 @@ type KACase struct {
 	GrantD int       `json:"grant_d"`          // ms passing while the LeaseGrant is in flight
 	Rounds []KARound `json:"rounds"`           // plan of the i-th keep-alive request
 	Revoke bool      `json:"revoke,omitempty"` // after the planned rounds the lease is revoked out of band (else: further requests are not sent)
+	// GrantFail: the LeaseGrant of the campaign fails ("before": not sent, "lost": granted, answer dropped): the
+	// campaign fails and the member holds no lease it knows of
+	GrantFail string `json:"grant_fail,omitempty"`
 }
 
 func init() {
@@ -75,6 +79,9 @@ func genKA(t *rapid.T) KACase {
 		c.Rounds = append(c.Rounds, r)
 	}
 	c.Revoke = uniIn(t, 0, 3, "revoke") == 0
+	if uniIn(t, 0, 9, "grantFail") == 0 {
+		c.GrantFail = vkit.PickU(t, []string{"before", "lost"}, "grantFailKind")
+	}
 	return c
 }
 
@@ -82,7 +89,7 @@ type kaWorld struct {
 	mu        sync.Mutex
 	clock     *vclock
 	c         KACase
-	next      int           // index of the next keep-alive request
+	next      int                   // index of the next keep-alive request
 	sentAt    map[int]time.Duration // request seq -> clock offset when it was handed over
 	plan      map[int]KARound
 	inflight  int
@@ -93,6 +100,8 @@ type kaWorld struct {
 	slowOK    int
 	grantSeen bool
 	cond      *sync.Cond
+	ls        *election.Leadership
+	early     string // Check() answered true before any lease was granted
 }
 
 func runKA(c KACase) (info vkit.Info, rerr error) {
@@ -118,6 +127,25 @@ func runKA(c KACase) (info vkit.Info, rerr error) {
 
 	root := f.Root()
 	ls := election.NewLeadership(s.client, root+"/leader", "c03 keepalive")
+	w.ls = ls
+	if ls.Check() {
+		return info, fmt.Errorf("Check() is true on a member that never campaigned")
+	}
+	if c.GrantFail != "" {
+		err := ls.Campaign(int64(c.TTL), "member-ka")
+		info.Class("grant-fails-" + c.GrantFail)
+		info.NonTrivial = true
+		if w.early != "" {
+			return info, fmt.Errorf("%s", w.early)
+		}
+		if err == nil {
+			return info, fmt.Errorf("the campaign succeeded although its LeaseGrant failed (%s)", c.GrantFail)
+		}
+		if ls.Check() {
+			return info, fmt.Errorf("the LeaseGrant of the campaign failed (%s: %v), the member holds no lease, and Check() answers true", c.GrantFail, err)
+		}
+		return info, nil
+	}
 	if err := ls.Campaign(int64(c.TTL), "member-ka"); err != nil {
 		// no fault is injected into the campaign: an error is an environment problem
 		info.Inconclusive = true
@@ -125,6 +153,9 @@ func runKA(c KACase) (info vkit.Info, rerr error) {
 	}
 	if !w.grantSeen {
 		return info, fmt.Errorf("campaign succeeded without a LeaseGrant passing the interceptor")
+	}
+	if w.early != "" {
+		return info, fmt.Errorf("%s", w.early)
 	}
 	ctx, cancel := context.WithCancel(context.Background())
 	kept := make(chan struct{})
@@ -220,8 +251,17 @@ func (w *kaWorld) before(ev *etcdfix.Event) etcdfix.Action {
 	case "LeaseGrant":
 		w.mu.Lock()
 		w.sentAt[ev.Seq] = w.clock.offset(0)
+		if w.ls != nil && w.ls.Check() {
+			w.early = "Check() answers true while the LeaseGrant of the campaign is still in flight (no lease granted yet)"
+		}
 		w.mu.Unlock()
 		w.clock.advance(0, time.Duration(w.c.GrantD)*time.Millisecond)
+		switch w.c.GrantFail {
+		case "before":
+			return etcdfix.FailBefore
+		case "lost":
+			return etcdfix.LostAck
+		}
 		return etcdfix.Proceed
 	case "LeaseKeepAlive":
 		w.mu.Lock()
@@ -301,3 +341,14 @@ func minInt(a, b int) int {
 
 // uniIn draws uniformly from [lo, hi].
 func uniIn(t *rapid.T, lo, hi int, label string) int { return lo + vkit.Uni(t, hi-lo+1, label) }
+
+// The LeaseGrant of a campaign is still in flight, then fails: the member holds no lease, Check() must be false
+// at both moments.
+func TestFinding_check_true_without_granted_lease(t *testing.T) {
+	_, err := runKA(KACase{TTL: 1, GrantFail: "before"})
+	detail := "Check() is false while the grant is in flight and after it failed"
+	if err != nil {
+		detail = err.Error()
+	}
+	vkit.Finding(t, "C03/check-true-without-granted-lease", err != nil, detail)
+}
